@@ -6,6 +6,7 @@ pub mod c05;
 pub mod c06;
 pub mod c07;
 pub mod c08;
+pub mod c09;
 pub mod c12;
 pub mod c13;
 pub mod c16;
@@ -15,5 +16,5 @@ pub mod c18;
 use crate::core::PropertyDef;
 
 pub fn all() -> Vec<PropertyDef> {
-    vec![c01::def(), c02::def(), c03::def(), c04::def(), c05::def(), c06::def(), c07::def(), c08::def(), c12::def(), c13::def(), c16::def(), c17::def(), c18::def()]
+    vec![c01::def(), c02::def(), c03::def(), c04::def(), c05::def(), c06::def(), c07::def(), c08::def(), c09::def(), c12::def(), c13::def(), c16::def(), c17::def(), c18::def()]
 }
